@@ -76,7 +76,7 @@ var histPlaces = []struct {
 }{
 	{"top", [][2]string{{"P", "A{{ x }}INC B"}}},
 	{"loop", [][2]string{{"P", "{% for i in [1, 2, 3] %}{{ i }}INC{% endfor %}B"}}},
-	{"capture", [][2]string{{"P", "{% set c %}INC{% endset %}{{ c }}B"}}},
+	{"if", [][2]string{{"P", "A{% if x %}INC{% else %}n{% endif %}B"}}},
 	{"apply", [][2]string{{"P", "{% apply upper %}aINC{% endapply %}B"}}},
 	{"macro", [][2]string{{"P", "{% import 'PL' as pl %}A{{ pl.w(1) }}B"}, {"PL", "{% macro w(k) %}{{ k }}INC{% endmacro %}"}}},
 	{"block", [][2]string{{"P", "{% extends 'base' %}{% block b %}INC{% endblock %}"}}},
@@ -299,8 +299,8 @@ func histReference() {
 var histLog = os.Getenv("C05_HISTLOG") // development aid
 
 // runHistory: one history. pattern: FS | SF | FFS | FGS (two different failures); gc: 0 = no
-// collection during the history, 1 / 2 = that many forced collections after every failing step and
-// after every block of sound renders.
+// collection during the history (the collector is switched off for its duration), 1 / 2 = that many
+// forced collections between the failing step(s) and the sound renders of every round.
 func runHistory(t *vlib.T, pattern string, gc int, pol bool, rounds int, fails []histFail) *vlib.Outcome {
 	o := &vlib.Outcome{Counters: map[string]int64{}}
 	histReference()
@@ -316,6 +316,9 @@ func runHistory(t *vlib.T, pattern string, gc int, pol bool, rounds int, fails [
 	if gc == 0 {
 		defer debug.SetGCPercent(debug.SetGCPercent(-1))
 	}
+	// the templates of this family nest four deep at most; should a render recurse without end
+	// (a cycle in the chain of contexts) the fatal stack overflow comes after 32 MiB, not after 1 GiB
+	defer debug.SetMaxStack(debug.SetMaxStack(32 << 20))
 	collect := func() {
 		for i := 0; i < gc; i++ {
 			runtime.GC()
@@ -358,7 +361,6 @@ func runHistory(t *vlib.T, pattern string, gc int, pol bool, rounds int, fails [
 				o.Nontrivial = true
 			}
 		}
-		collect()
 	}
 
 	failStep := func(round, i int) bool {
@@ -411,7 +413,6 @@ func runHistory(t *vlib.T, pattern string, gc int, pol bool, rounds int, fails [
 			if !soundBlock(round, e, "on the same engine") {
 				return o
 			}
-			collect()
 		case "SF":
 			if !soundBlock(round, e, "on the same engine") {
 				return o
@@ -420,7 +421,6 @@ func runHistory(t *vlib.T, pattern string, gc int, pol bool, rounds int, fails [
 			if !failStep(round, 0) {
 				return o
 			}
-			collect()
 		case "FFS":
 			if !failStep(round, 0) || !failStep(round, 0) {
 				return o
@@ -429,7 +429,6 @@ func runHistory(t *vlib.T, pattern string, gc int, pol bool, rounds int, fails [
 			if !soundBlock(round, e, "on the same engine") {
 				return o
 			}
-			collect()
 		case "FGS":
 			if !failStep(round, 0) || !failStep(round, 1) {
 				return o
@@ -438,7 +437,6 @@ func runHistory(t *vlib.T, pattern string, gc int, pol bool, rounds int, fails [
 			if !soundBlock(round, e, "on the same engine") {
 				return o
 			}
-			collect()
 		default:
 			panic("pattern")
 		}
@@ -461,7 +459,7 @@ func runHistory(t *vlib.T, pattern string, gc int, pol bool, rounds int, fails [
 	if failWant[0].failed {
 		cls = "E:" + errClass(errors.New(failWant[0].errTxt))
 	}
-	o.Class = fmt.Sprintf("hist/%s/gc%d/%s/%s:%s", pattern, gc, fails[0].opt, fails[0].place, cls)
+	o.Class = fmt.Sprintf("hist/%s/gc%d/%s:%s", pattern, gc, fails[0].opt, cls)
 	if len(o.Class) > 100 {
 		o.Class = o.Class[:100]
 	}
@@ -477,19 +475,36 @@ func runHistory(t *vlib.T, pattern string, gc int, pol bool, rounds int, fails [
 func runHist(t *vlib.T) {
 	fails := histFails()
 	core := histCore(fails)
+	thorough := t.Thorough()
 	rounds := 4
-	if t.Thorough() {
+	if thorough {
 		rounds = len(histSounds) // every sound template comes first after a failure once (5 is coprime to their number)
 	}
-	// one failing render; simplest first: pattern, then collections, then the failing side
-	for _, pattern := range []string{"FS", "SF", "FFS"} {
-		for gc := 0; gc <= 2; gc++ {
+	gcLeaf := map[string]bool{"div0": true, "failfn": true, "incwith": true}
+	// one failing render; simplest first: collections, then pattern, then the failing side.
+	// Forced collections are expensive (a full GC cycle each), so the quick tier combines them only
+	// with pattern FS, an installed policy and three leaves; the thorough tier with every failing
+	// side and pattern under an installed policy.
+	for gc := 0; gc <= 2; gc++ {
+		for _, pattern := range []string{"FS", "SF", "FFS"} {
+			if gc > 0 && !thorough && pattern != "FS" {
+				continue
+			}
 			for _, pol := range []bool{false, true} {
+				if gc > 0 && !pol {
+					continue
+				}
 				for _, f := range fails {
+					if gc > 0 && !thorough && !gcLeaf[f.leaf] {
+						continue
+					}
 					pattern, gc, pol, f := pattern, gc, pol, f
 					r := rounds
-					if gc > 0 && !t.Thorough() {
+					if gc > 0 {
 						r = 2
+						if thorough {
+							r = 3
+						}
 					}
 					tcase(t, fmt.Sprintf("hist|%s/gc%d/pol%v/%s", pattern, gc, pol, f.id()), func() *vlib.Outcome {
 						return runHistory(t, pattern, gc, pol, r, []histFail{f})
@@ -498,32 +513,42 @@ func runHist(t *vlib.T) {
 			}
 		}
 	}
-	// two different failures in a row: quick core x core, thorough all x core and core x all
-	type pair struct{ a, b histFail }
+	// two different failures in a row: core x core; thorough also all x core and core x all
+	// (without forced collections)
+	type pair struct {
+		a, b   histFail
+		coreSq bool
+	}
 	var pairs []pair
 	seen := map[string]bool{}
-	add := func(a, b histFail) {
+	add := func(a, b histFail, sq bool) {
 		k := a.id() + "+" + b.id()
 		if a.id() != b.id() && !seen[k] {
 			seen[k] = true
-			pairs = append(pairs, pair{a, b})
+			pairs = append(pairs, pair{a, b, sq})
 		}
 	}
 	for _, a := range core {
 		for _, b := range core {
-			add(a, b)
+			add(a, b, true)
 		}
 	}
-	if t.Thorough() {
+	if thorough {
 		for _, a := range fails {
 			for _, b := range core {
-				add(a, b)
-				add(b, a)
+				add(a, b, false)
+				add(b, a, false)
 			}
 		}
 	}
 	for gc := 0; gc <= 2; gc++ {
+		if gc > 0 && !thorough {
+			continue
+		}
 		for _, p := range pairs {
+			if gc > 0 && !p.coreSq {
+				continue
+			}
 			gc, p := gc, p
 			tcase(t, fmt.Sprintf("hist|FGS/gc%d/poltrue/%s+%s", gc, p.a.id(), p.b.id()), func() *vlib.Outcome {
 				return runHistory(t, "FGS", gc, true, 2, []histFail{p.a, p.b})
